@@ -439,7 +439,9 @@ class SimNet:
         if self.connect_hook is not None:
             r = self.connect_hook(host, port)
             if isinstance(r, BaseException):
+                self.log("tcp_connect", f"{host}:{port}", "")
                 await asyncio.sleep(0.001)
+                self.log("tcp_refused", f"{host}:{port}", type(r).__name__)
                 raise r
             if isinstance(r, (int, float)):
                 delay = float(r)
@@ -447,7 +449,8 @@ class SimNet:
         self.stats["tcp_connect_attempts"] += 1
         await asyncio.sleep(delay)
         server = self.tcp_listeners.get((host, port))
-        if server is None or frozenset((self.local_ip, host)) in self.partitions:
+        if server is None or frozenset((self.local_ip, host)) in self.partitions or getattr(server, "down", False):
+            self.log("tcp_refused", f"{host}:{port}", "")
             raise ConnectionRefusedError(111, "Connection refused")
         cid = len(self.tcp_conns)
         conn = TCPConn(self, cid, (self.local_ip, self._alloc_port(self.local_ip)), (host, port))
